@@ -48,6 +48,8 @@ RELAY_CLASSES = {
 
 DESTS = {"noquery": "https://sp.example.org/acs/post", "query": "https://sp.example.org/acs?tenant=t1&lang=en",
          "query-special": "https://sp.example.org/acs?next=%2Fhome%3Fa%3D1&x=y+z",
+         # a destination that brings many parameters of its own
+         "query-many": "https://sp.example.org/acs?tenant=t1&lang=en&theme=dark&region=eu&flow=login&v=2&debug=0",
          # the edges of "with and without an existing query string": an empty query, a query ending in a separator, a fragment
          "query-empty": "https://sp.example.org/acs?", "query-trailing-amp": "https://sp.example.org/acs?tenant=t1&",
          "fragment": "https://sp.example.org/acs#top", "query+fragment": "https://sp.example.org/acs?tenant=t1#top",
@@ -495,6 +497,7 @@ def _run_case(case, ctx):
                     bad("redirect-roundtrip-not-byte-identical", "unravel returned %r" % back[:80])
             except Exception as exc:
                 bad("redirect-own-output-not-decodable", repr(exc))
+        _receiving_end(up.urlsplit(loc).query, typ, relay, BINDING_HTTP_REDIRECT, dict(rest).get(typ) if sorted(names) == sorted(want_names) else None, bad, counters)
         added = parts.query[len(dparts.query):]
         if re.search(r"[^A-Za-z0-9_.~%=&+\-]", added):
             bad("redirect-parameter-not-percent-encoded", "raw query part %r" % added[:120])
@@ -544,8 +547,22 @@ def _run_case(case, ctx):
             bad("artifact-relaystate-altered", "RelayState %r" % rest.get("RelayState"))
         if set(rest) - {"SAMLart", "RelayState"}:
             bad("artifact-parameter-created", "parameters %r" % sorted(rest))
+        _receiving_end(parts.query, "SAMLart", relay, BINDING_HTTP_ARTIFACT, msg, bad, counters)
     return {"outcome": "violations" if viol else "roundtrip-ok", "nontrivial": counters.get("independent_reads", 0) > 0 and counters.get("library_decodes", 0) > 0 or bool(viol),
             "violations": viol[:4], "counters": counters, "obs": {"kind": kind}}
+
+
+def _receiving_end(query, typ, relay, binding, value, bad, counters):
+    """the package's decoder for the receiving end of a GET (a WSGI request as the browser sends it)"""
+    from saml2_tophat import httputil
+    try:
+        fields, b_ = httputil.unpack_any({"REQUEST_METHOD": "GET", "QUERY_STRING": query})
+        counters["receiving_end_decodes"] = counters.get("receiving_end_decodes", 0) + 1
+        if b_ != binding or (value is not None and fields.get(typ) != value) or (fields.get("RelayState") or "") != relay:
+            bad("get-receiving-decoder-differs", "httputil.unpack_any -> binding %s, %s %r..., RelayState %r" % (
+                b_.rsplit(":", 1)[-1], typ, (fields.get(typ) or "")[:30], fields.get("RelayState")))
+    except Exception as exc:
+        bad("get-receiving-decoder-raised", "httputil.unpack_any on the query of the URL: %r" % (exc,))
 
 
 def _first_diff(a, b, path="$"):
